@@ -653,3 +653,439 @@ def replay(ctx: Ctx, obj) -> int:
         return replay_project(ctx, inp)
     print(obj)
     return 0
+
+
+# ================================================================================================ taint stream
+#
+# Direct oracle on whole runs of the real driver.  A *marker* is  MK<4 digits>q + payload ; the payload carries HTML
+# metacharacters and, when interpreted as markup, would create elements/attributes with names unique to the marker
+# (xmk<id>, onzz<id>) or `javascript:` links.  For every written page:
+#   W  the page parses as XML once characters that are not XML Chars are set aside (they are mapped to private-use
+#      placeholders, not deleted, so that no new token can arise from the deletion) and &nbsp; is declared;
+#   S  no element named xmk*, no attribute named onzz*, no href/src starting with javascript:, no <em>/<strong> made of
+#      an MKEM token, no marker inside <script>/<style>;
+#   A  every occurrence of a marker id in the page bytes lies in a text node or an attribute value;
+#   V  after each id the payload follows verbatim, modulo the presentation the position allows (Python repr escapes,
+#      `\xNN` for control characters, white space, the line-wrap sign).
+
+DOCFORMATS = ["epytext", "restructuredtext", "google", "numpy", "plaintext"]
+
+HTML_PAYLOADS = [
+    "<xmk{i} onzz{i}=x>&\"'",
+    "</pre></code></p><xmk{i}>alert(1)</xmk{i}>",
+    "]]>-->",
+    "&lt;&#60;&amp;amp;&xmk{i};",
+    "<!--xmk{i}",
+    "\x01\x08\x1b\x7f\"<xmk{i}>",
+    "\"><xmk{i} onzz{i}=\"",
+    "' onzz{i}='x",
+    "<![CDATA[<xmk{i}>]]>",
+    "\U0001F600<xmk{i}/>é&",
+    "<script>xmk{i}</script>",
+]
+# reST-flavoured payloads: only for positions that are not docstrings (in a docstring they are the author's markup)
+REST_PAYLOADS = [
+    "a`` `MKURL{i} <javascript:alert({i})>`_ ``b",
+    " *MKEM{i}* x",
+    "x *MKEM{i}* ",
+    "x\rA *MKEM{i}* b\r\r.. raw:: html\r\r   <xmk{i} onzz{i}=1>\r\r",
+    "x\x1cA *MKEM{i}* b",
+    "*MKEM{i}* y\x00",
+]
+VALUE_KINDS = ["constant", "class-constant", "default", "annotation", "decorator-arg", "class-base-arg",
+               "deprecated-replacement", "attribute-value"]
+DOC_KINDS = ["module-docstring", "function-docstring", "class-docstring", "attribute-docstring", "field-param",
+             "field-type", "field-return", "field-raise-name", "inline-code", "inline-link"]
+
+
+def placeholder(c: str) -> str:
+    return chr(0xE000 + ord(c)) if ord(c) < 0x100 else "\uE100"
+
+
+def set_aside(s: str) -> str:
+    return XML_ILLEGAL.sub(lambda m: placeholder(m.group()), s)
+
+
+_N_WS = re.compile(r"[\s\\\u21b5]+")
+
+
+def norm_marker_text(s: str) -> str:
+    """presentation-insensitive form: control characters as xNN (whether they arrive raw, as placeholder, as Python
+    escape or as html2stan's \\xNN), no white space, no backslashes, no wrap sign"""
+    out = []
+    for c in s:
+        o = ord(c)
+        if 0xE000 <= o < 0xE100:
+            o = o - 0xE000
+            c = chr(o)
+        if c == "\r":
+            out.append("r")
+        elif c == "\n":
+            out.append("n")
+        elif c == "\t":
+            out.append("t")
+        elif o < 32 or o == 127:
+            out.append("x%02x" % o)
+        else:
+            out.append(c)
+    return _N_WS.sub("", "".join(out))
+
+
+_WEAK = re.compile(r"[\x00-\x20\x7f\x85\xa0\u2028\u2029`'\\\ue000-\ue100]+")
+
+
+def weak_norm(s: str) -> str:
+    """for the deprecation notice, whose text is legitimately re-spaced (and, once fixed, re-quoted): ignore white space,
+    control characters, backticks, apostrophes and backslashes"""
+    return _WEAK.sub("", s)
+
+
+class Marker:
+    def __init__(self, idx: int, kind: str, payload: str):
+        self.id = "MK%04dq" % idx
+        self.num = idx
+        self.kind = kind
+        self.payload = payload.replace("{i}", str(idx))
+        self.text = self.id + self.payload
+
+    def lit(self) -> str:
+        return repr(self.text)
+
+
+def gen_project(rng, pidx: int, docformat: str, force_deprecated: bool = False) -> Dict[str, Any]:
+    """source files of one tiny tainted project + its markers"""
+    markers: List[Marker] = []
+    counter = [pidx * 40]
+
+    def mk(kind: str, rest_ok: bool = False, fix=None) -> Marker:
+        counter[0] += 1
+        pl = rng.choice(REST_PAYLOADS) if (rest_ok and rng.random() < 0.5) else rng.choice(HTML_PAYLOADS)
+        if "\x00" in pl and kind != "deprecated-replacement":
+            pl = pl.replace("\x00", "")   # NUL in a displayed value is dropped by the colorizer: C15's subject (DESIGN §8-5)
+        if fix is not None:
+            pl = fix(pl)
+        m = Marker(counter[0] % 10000, kind, pl)
+        markers.append(m)
+        return m
+
+    def doc_safe(m: Marker) -> str:
+        """marker text as it is typed inside a (non-raw) docstring literal"""
+        return m.text.replace("\\", "\\\\").replace('"""', '\\"\\"\\"').replace("\x00", "")
+
+    def docstring(summary_kind: str, fields: bool) -> str:
+        m1 = mk(summary_kind)
+        parts = [f"Summary {doc_safe(m1)} end."]
+        if rng.random() < 0.7:
+            m2 = mk(summary_kind)
+            parts.append(f"\nBody text {doc_safe(m2)} more text.")
+        if docformat == "epytext":
+            if rng.random() < 0.5:
+                parts.append(f"\nCode C{{{doc_safe(mk('inline-code'))}}} done.")
+            if rng.random() < 0.5:
+                # L{text<target>} is epytext's own link syntax: keep the payload from ending in <...>
+                parts.append(f"\nLink L{{{doc_safe(mk('inline-link', fix=lambda p: p + ' z'))}}} done.")
+            if fields:
+                parts.append(f"\n@param a: desc {doc_safe(mk('field-param'))}")
+                if rng.random() < 0.5:
+                    parts.append(f"@type a: {doc_safe(mk('field-type'))}")
+                parts.append(f"@return: {doc_safe(mk('field-return'))}")
+                if rng.random() < 0.5:
+                    parts.append(f"@raise {doc_safe(mk('field-raise-name', fix=lambda p: p.replace(' ', '_')))}: when")
+        elif docformat == "restructuredtext":
+            if rng.random() < 0.5:
+                parts.append(f"\nCode ``{doc_safe(mk('inline-code'))}`` done.")
+            if rng.random() < 0.5:
+                # `text <target>` is reST's own link syntax: keep the payload from ending in <...>
+                parts.append(f"\nLink `{doc_safe(mk('inline-link', fix=lambda p: p + ' z'))}` done.")
+            if fields:
+                parts.append(f"\n:param a: desc {doc_safe(mk('field-param'))}")
+                if rng.random() < 0.5:
+                    parts.append(f":type a: {doc_safe(mk('field-type'))}")
+                parts.append(f":returns: {doc_safe(mk('field-return'))}")
+        elif docformat == "google" and fields:
+            parts.append(f"\nArgs:\n    a: desc {doc_safe(mk('field-param'))}\n\nReturns:\n    {doc_safe(mk('field-return'))}")
+        elif docformat == "numpy" and fields:
+            parts.append(f"\nParameters\n----------\na : int\n    desc {doc_safe(mk('field-param'))}\n\nReturns\n-------\nint\n    {doc_safe(mk('field-return'))}")
+        body = "\n".join(parts)
+        return '"""' + body + '\n"""'
+
+    def indent(s: str, n: int = 4) -> str:
+        return "\n".join((" " * n + l if l else l) for l in s.split("\n"))
+
+    lines = [docstring("module-docstring", False),
+             "from typing import Literal, Generic",
+             "from twisted.python.deprecate import deprecated",
+             "from incremental import Version",
+             "def deco(*a, **k):\n    return lambda f: f",
+             "class Base:\n    pass", ""]
+    # constant
+    if rng.random() < 0.8:
+        lines.append(f"CONST_A = {mk('constant', True).lit()}")
+        if rng.random() < 0.5:
+            lines.append(docstring("attribute-docstring", False))
+    if rng.random() < 0.4:
+        lines.append(f"CONST_B = [{mk('constant', True).lit()}, {{'k': {mk('constant').lit()}}}]")
+    if rng.random() < 0.3:
+        lines.append(f"var_c: {mk('annotation').lit()} = {mk('attribute-value').lit()}")
+    # function
+    deco = ""
+    if rng.random() < 0.5:
+        deco += f"@deco({mk('decorator-arg', True).lit()}, k={mk('decorator-arg').lit()})\n"
+    if force_deprecated or rng.random() < 0.35:
+        deco += f"@deprecated(Version('tp', 1, 2, 3), replacement={mk('deprecated-replacement', True).lit()})\n"
+    ann = f": Literal[{mk('annotation').lit()}]" if rng.random() < 0.5 else ""
+    ret = f" -> {mk('annotation').lit()}" if rng.random() < 0.4 else ""
+    lines.append(f"{deco}def func(a{ann}={mk('default', True).lit()}, *, b={mk('default').lit()}){ret}:\n"
+                 + indent(docstring("function-docstring", True)) + "\n    return a\n")
+    # class
+    base = f"(Base, Generic[{mk('class-base-arg').lit()}])" if rng.random() < 0.4 else "(Base)"
+    cdeco = f"@deco({mk('decorator-arg').lit()})\n" if rng.random() < 0.3 else ""
+    cl = [f"{cdeco}class Klass{base}:", indent(docstring("class-docstring", False))]
+    if rng.random() < 0.7:
+        cl.append(f"    LIMIT = {mk('class-constant', True).lit()}")
+    if rng.random() < 0.5:
+        cl.append(f"    attr: {mk('annotation').lit()} = 1")
+        cl.append(indent(docstring("attribute-docstring", False)))
+    cl.append(f"    def meth(self, x={mk('default').lit()}):\n" + indent(docstring("function-docstring", True), 8) + "\n        return x")
+    if rng.random() < 0.3:
+        cl.append(f"    @deprecated(Version('tp', 2, 0, 0), {mk('deprecated-replacement', True).lit()})\n    def old(self):\n        '''old'''")
+    lines.append("\n".join(cl))
+    files = {"tp/__init__.py": "\n".join(lines) + "\n"}
+    if rng.random() < 0.25:
+        m = mk("module-filename")
+        # a file name may hold anything but '/' and NUL; keep it importable-looking
+        fname = (m.id + rng.choice(["&lt;<b>", "<xmk%d onzz%d=x>" % (m.num, m.num), "\"'&", "]]>"]))
+        m.payload = fname[len(m.id):]
+        m.text = fname
+        files["tp/" + fname + ".py"] = '"""mod"""\nV = 1\n'
+    return {"docformat": docformat, "files": files,
+            "markers": [(m.id, m.num, m.kind, m.payload) for m in markers]}
+
+
+def write_project(root: str, files: Dict[str, str]) -> None:
+    for rel, src in files.items():
+        p = os.path.join(root, rel)
+        os.makedirs(os.path.dirname(p), exist_ok=True)
+        with open(p, "w", encoding="utf-8", newline="") as f:
+            f.write(src)
+
+
+PAGE_DOCTYPE = re.compile(r"^\s*(<\?xml[^>]*\?>)?\s*<!DOCTYPE[^>]*>", re.S)
+ENTITY_DECL = '<!DOCTYPE html [<!ENTITY nbsp "&#160;">]>'
+
+
+def parse_page(raw: bytes):
+    """-> (root element | None, error text). The DOCTYPE is replaced by one that declares the HTML entity in use."""
+    try:
+        text = raw.decode("utf-8")
+    except UnicodeDecodeError as e:
+        return None, None, f"not utf-8: {e}"
+    text = set_aside(text)
+    body = PAGE_DOCTYPE.sub("", text, count=1)
+    try:
+        return ET.fromstring((ENTITY_DECL + body).encode("utf-8")), text, ""
+    except ET.ParseError as e:
+        line, col = e.position
+        src = (ENTITY_DECL + body).split("\n")
+        ctxt = src[line - 1][max(0, col - 60):col + 60] if 0 < line <= len(src) else ""
+        return None, text, f"{e}: …{ctxt}…"
+
+
+def local(tag: str) -> str:
+    return tag.rsplit("}", 1)[-1] if isinstance(tag, str) else ""
+
+
+def check_page(name: str, raw: bytes, markers: Sequence[Tuple[str, int, str, str]]) -> List[Tuple[str, str]]:
+    """all violations found on one page, as (signature, explanation)"""
+    res: List[Tuple[str, str]] = []
+    root, text, err = parse_page(raw)
+    by_num = {num: (mid, kind, pl) for mid, num, kind, pl in markers}
+
+    hit_nums = set()
+
+    def kind_of(s: str) -> str:
+        m = re.search(r"(?:xmk|onzz|MKEM|MKURL|alert\()(\d+)", s)
+        if m and int(m.group(1)) in by_num:
+            hit_nums.add(int(m.group(1)))
+            return by_num[int(m.group(1))][1]
+        m = re.search(r"MK(\d{4})q", s)
+        if m and int(m.group(1)) in by_num:
+            return by_num[int(m.group(1))][1]
+        return "unknown"
+
+    if root is None:
+        res.append(("page-not-well-formed:" + kind_of(err), f"{name}: {err}"))
+        return res
+    texts: List[Tuple[str, str]] = []   # (where, decoded string)
+    for el in root.iter():
+        tag = local(el.tag)
+        if not isinstance(el.tag, str):
+            continue
+        if tag.lower().startswith("xmk"):
+            res.append(("source-text-became-markup:" + kind_of(tag), f"{name}: element <{tag}>"))
+        for k, v in el.attrib.items():
+            lk = local(k).lower()
+            if lk.startswith("onzz"):
+                res.append(("source-text-became-markup:" + kind_of(lk), f"{name}: attribute {lk} on <{tag}>"))
+            if lk in ("href", "src", "action") and v.strip().lower().startswith("javascript:"):
+                res.append(("source-text-became-markup:" + kind_of(v), f"{name}: {lk}={v!r} on <{tag}>"))
+            texts.append((f"@{lk}", v))
+        full = "".join(el.itertext())
+        if tag in ("em", "strong", "b", "i") and re.fullmatch(r"MKEM\d+", full.strip()):
+            res.append(("source-text-became-markup:" + kind_of(full), f"{name}: <{tag}>{full}</{tag}>"))
+        if tag in ("script", "style") and re.search(r"MK\d{4}q|xmk\d", full):
+            res.append(("marker-in-script:" + kind_of(full), f"{name}: <{tag}> contains {full[:80]!r}"))
+        if el.text:
+            texts.append((tag, el.text))
+        if el.tail:
+            texts.append(("tail", el.tail))
+    # A: every raw occurrence is accounted for by a text node / attribute value
+    alltext = "\x00".join(t for _, t in texts)
+    for mid, num, kind, payload in markers:
+        nraw = text.count(mid)
+        if not nraw:
+            continue
+        ndec = alltext.count(mid)
+        if nraw != ndec:
+            res.append((f"marker-outside-text:{kind}", f"{name}: {mid} occurs {nraw}x in the page source, {ndec}x in text/attribute values"))
+    # V: the payload follows the id, verbatim modulo presentation
+    joined = "".join(root.itertext())
+    for mid, num, kind, payload in markers:
+        want = norm_marker_text(payload)
+        from urllib.parse import unquote
+        for src in [joined] + [(unquote(v) if w in ("@href", "@src") else v) for w, v in texts if w.startswith("@")]:
+            start = 0
+            while True:
+                k = src.find(mid, start)
+                if k < 0:
+                    break
+                start = k + len(mid)
+                got = norm_marker_text(src[start:start + 4 * len(payload) + 40])
+                if kind == "deprecated-replacement":
+                    if num in hit_nums or weak_norm(src[start:start + 4 * len(payload) + 40]).startswith(weak_norm(payload)):
+                        continue
+                if not got.startswith(want) and not _lenient_match(want, got, kind) and not \
+                        norm_marker_text(unquote(src[start:start + 12 * len(payload) + 40])).startswith(want):
+                    res.append((f"marker-text-altered:{kind}", f"{name}: after {mid}: {src[start:start + 80]!r} (payload {payload!r})"))
+    return res
+
+
+def _lenient_match(want: str, got: str, kind: str) -> bool:
+    """documented presentations that shorten the text: summaries and long values are truncated with '...'"""
+    g = got
+    for cut in ("...", "…"):
+        if cut in g:
+            pre = g.split(cut)[0]
+            if want.startswith(pre) and len(pre) >= 1:
+                return True
+    return False
+
+
+def run_one_project(args) -> Dict[str, Any]:
+    """worker: build, render, check one project; returns a summary (picklable)"""
+    seed, pidx, docformat, force = args
+    import random
+    rng = random.Random(f"C10-taint:{seed}:{pidx}")
+    proj = gen_project(rng, pidx, docformat, force_deprecated=force)
+    tmp = tempfile.mkdtemp(prefix="c10-")
+    out = os.path.join(tmp, "out")
+    result: Dict[str, Any] = {"pidx": pidx, "docformat": docformat, "markers": proj["markers"], "files": proj["files"],
+                              "violations": [], "pages": 0, "crash": None, "seen": 0}
+    try:
+        write_project(os.path.join(tmp, "src"), proj["files"])
+        from pydoctor.driver import main as pydoctor_main
+        buf = io.StringIO()
+        try:
+            with contextlib.redirect_stdout(buf), contextlib.redirect_stderr(buf):
+                pydoctor_main(["--html-output", out, "--docformat", docformat, "--project-name", "tp",
+                               "--project-base-dir", os.path.join(tmp, "src"), os.path.join(tmp, "src", "tp")])
+        except SystemExit:
+            pass
+        except BaseException as e:  # a crash of the run is C01's subject; pages already written are still checked
+            result["crash"] = type(e).__name__ + ": " + str(e)[:200].split("\n")[0]
+        seen = set()
+        if os.path.isdir(out):
+            for fn in sorted(os.listdir(out)):
+                if not fn.endswith(".html"):
+                    continue
+                raw = open(os.path.join(out, fn), "rb").read()
+                result["pages"] += 1
+                for mid, *_ in proj["markers"]:
+                    if mid.encode() in raw:
+                        seen.add(mid)
+                for sig, what in check_page(fn, raw, proj["markers"]):
+                    result["violations"].append((sig, what))
+        result["seen"] = len(seen)
+        result["seen_kinds"] = sorted({k for mid, _, k, _ in proj["markers"] if mid in seen})
+    finally:
+        shutil.rmtree(tmp, ignore_errors=True)
+    return result
+
+
+def taint_signature(sig: str) -> str:
+    # the one confirmed defect gets the signature under which it is recorded
+    if sig == "source-text-became-markup:deprecated-replacement":
+        return "rst-injection:deprecated-replacement"
+    return sig
+
+
+def run_taint_stream(ctx: Ctx) -> None:
+    nproj = 40 if ctx.quick else 1000
+    jobs = []
+    for p in range(nproj):
+        for fmt in DOCFORMATS:
+            jobs.append((ctx.seed, p, fmt, p % 8 == 0))
+    import multiprocessing as mp
+    nproc = min(16, os.cpu_count() or 2)
+    with mp.get_context("fork").Pool(nproc) as pool:
+        results = pool.map(run_one_project, jobs, chunksize=4)
+    for r in results:
+        kinds = sorted({k for _, _, k, _ in r["markers"]})
+        nontrivial = len(r.get("seen_kinds", [])) >= 3
+        canonical = "taint %s %d %s" % (r["docformat"], r["pidx"], ",".join(f"{mid}:{k}" for mid, _, k, _ in r["markers"]))
+        sample = None
+        if nontrivial and r["pidx"] == 1 and r["docformat"] == "restructuredtext":
+            sample = {"docformat": r["docformat"], "markers": [(m[0], m[2], m[3]) for m in r["markers"]][:6], "pages": r["pages"],
+                      "violations": r["violations"][:2]}
+        ctx.case(canonical, nontrivial, sample)
+        ctx.count("taint:projects:" + r["docformat"])
+        ctx.count("taint:pages", r["pages"])
+        ctx.count("taint:markers-planted", len(r["markers"]))
+        ctx.count("taint:markers-seen-on-pages", r["seen"])
+        for k in r.get("seen_kinds", []):
+            ctx.count("taint:kind-seen:" + k)
+        if r["crash"]:
+            ctx.count("taint:run-aborted:" + r["crash"].split(":")[0])
+        seen_sigs = set()
+        for sig, what in r["violations"]:
+            sig = taint_signature(sig)
+            if sig in seen_sigs:
+                continue
+            seen_sigs.add(sig)
+            ctx.fail(sig, {"docformat": r["docformat"], "files": r["files"], "markers": r["markers"]}, what)
+    ctx.traces_validated += sum(r["pages"] for r in results)
+
+
+def replay_project(ctx: Ctx, inp) -> int:
+    tmp = tempfile.mkdtemp(prefix="c10-replay-")
+    try:
+        write_project(os.path.join(tmp, "src"), inp["files"])
+        from pydoctor.driver import main as pydoctor_main
+        out = os.path.join(tmp, "out")
+        with contextlib.redirect_stdout(io.StringIO()):
+            try:
+                pydoctor_main(["--html-output", out, "--docformat", inp["docformat"], "--project-name", "tp",
+                               os.path.join(tmp, "src", "tp")])
+            except SystemExit:
+                pass
+        bad = 0
+        for fn in sorted(os.listdir(out)):
+            if fn.endswith(".html"):
+                for sig, what in check_page(fn, open(os.path.join(out, fn), "rb").read(), [tuple(m) for m in inp["markers"]]):
+                    print("oracle:", taint_signature(sig), "|", what)
+                    bad += 1
+        if not bad:
+            print("oracle: property holds on this project")
+        return 1 if bad else 0
+    finally:
+        shutil.rmtree(tmp, ignore_errors=True)
